@@ -56,6 +56,12 @@ def state_after(history):
     return st
 
 
+def changes_of(k, d):
+    """the content changes of a change step: "C" one, "D" two, "T" three; the last one is document d"""
+    n = len(L.DOCS)
+    return {"C": [d], "D": [(d + 2) % n, d], "T": [d, (d + 3) % n, d] if d % 2 else [(d + 1) % n, (d + 1) % n, d]}[k]
+
+
 def lsp_diags(binp, msgs, uri):
     res = lspclient.session(binp, msgs, timeout=120)
     pubs = [f["params"] for f in res["frames"] if f.get("method") == "textDocument/publishDiagnostics"]
@@ -161,6 +167,17 @@ def search(run, info):
             k = rng.choice("OCCX")
             h.append((k, rng.randint(1, 2), None if k == "X" else rng.randrange(len(texts))))
         histories.append(h + [(rng.choice("OC"), rng.randint(1, 2), rng.randrange(len(texts)))])
+    # a change notification with two or three content changes: the last one is the content ("D": two, the first being another
+    # document of the alphabet; "T": three)
+    dsteps = [(k, uid, d) for k in "DT" for uid in (1, 2) for d in docs_alpha]
+    histories += [list(h) for h in itertools.product(steps + dsteps, repeat=2) if any(x[0] in "DT" for x in h)]
+    for _ in range(nrand // 2):
+        n = rng.randint(3, 30)
+        h = []
+        for _ in range(n):
+            k = rng.choice("OCDTX")
+            h.append((k, rng.randint(1, 2), None if k == "X" else rng.randrange(len(texts))))
+        histories.append(h + [(rng.choice("OCD"), rng.randint(1, 2), rng.randrange(len(texts)))])
     for d in range(5, len(texts)):
         histories.append([("O", 1, d)])
         histories.append([("O", 1, 0), ("C", 1, d)])
@@ -185,7 +202,7 @@ def search(run, info):
             elif k == "X":
                 out.append(("X", uid, True))
             else:
-                out.append(("C", uid, True, v, [d]))
+                out.append(("C", uid, True, v, changes_of(k, d)))
         return out
 
     def runjob(h):
@@ -299,7 +316,8 @@ def search(run, info):
         "rule": "all notification sequences of length %d over 2 URIs x 5 document texts (valid, lexical error, syntax error, semantic "
                 "error, depends-on-other-document) x {didOpen, didChange} (every prefix is checked through its publish; versions are "
                 "counted per document and restart at 1 on every didOpen), the 100 open-change-reopen-change histories, all histories of "
-                "length 3 over the same steps and didClose of either URI that contain a didClose and end in a notification, plus random "
+                "length 3 over the same steps and didClose of either URI that contain a didClose and end in a notification, all histories "
+                "of length 2 with a didChange of two or three content changes (the last one counts), plus random "
                 "histories of length 4-40 over 10 documents incl. a pair with a two-file diagnostic and three with non-ASCII characters in front of the diagnosed place; every publish is compared with a "
                 "fresh server (3 runs) given the same current contents and with `ironplcc check`; non-trivial = every history, "
                 "distinct by message list" % depth,
@@ -325,7 +343,7 @@ def replay(run, rep):
             msgs.append(("X", uid, True))
             continue
         ver[uid] = 1 if k == "O" else ver.get(uid, 0) + 1
-        msgs.append(("O", uid, True, ver[uid], d) if k == "O" else ("C", uid, True, ver[uid], [d]))
+        msgs.append(("O", uid, True, ver[uid], d) if k == "O" else ("C", uid, True, ver[uid], changes_of(k, d)))
     res = lspclient.session(binp, [L.to_real(m, texts) for m in msgs], timeout=120)
     pubs = [f["params"] for f in res["frames"] if f.get("method") == "textDocument/publishDiagnostics"]
     if res["exit"] != 0 or len(pubs) != len([x for x in h if x[0] != "X"]):
